@@ -54,6 +54,7 @@ func genStopCase(r *simrt.Rand, tier string) *StopCase {
 	c.Shutdown = r.Bool(0.3)
 	c.Early = r.Bool(0.15)
 	c.Late = r.Pick(0, 0, 1, 2, 3)
+	lowFiles := r.Bool(0.1)
 	n := r.Range(0, 4)
 	for i := 0; i < n; i++ {
 		cn := StopConn{}
@@ -78,6 +79,11 @@ func genStopCase(r *simrt.Rand, tier string) *StopCase {
 		cn.Sendfile = r.Bool(0.15)
 		cn.Race = []string{"", "", "connect", "peerclose", "appclose", "write"}[r.Intn(6)]
 		c.Conns = append(c.Conns, cn)
+	}
+	if lowFiles {
+		// descriptor numbers start at 1000 (epoll, eventfd, then sockets): some of this run's
+		// connections get a number the engine refuses
+		c.Eng.MaxFiles = 1002 + r.Range(1, 4)
 	}
 	return c
 }
